@@ -64,8 +64,16 @@ func (m *Manager) SetSyncedTo(ns walletdb.ReadWriteBucket, bs *BlockStamp) error
 		return err
 	}
 
-	// Update memory now that the database is updated.
-	m.syncState.syncedTo = *bs
+	// Update memory once the database update has been committed. Doing
+	// it right away would leave the in-memory sync state ahead of the
+	// stored one whenever the caller's transaction is rolled back.
+	syncedTo := *bs
+	ns.Tx().OnCommit(func() {
+		m.mtx.Lock()
+		m.syncState.syncedTo = syncedTo
+		m.mtx.Unlock()
+	})
+
 	return nil
 }
 
